@@ -830,6 +830,17 @@ class CallMixin:
             self_val = SV(self.w.type_const(fi.cls), T.TYPE)  # Cls.class_method(...): the class is the first argument
         if c is not None and not c.inline:
             bound = self.bind_params(fi.node, args, kwargs, fi.module, self_val)
+            if fq in self.specs.logged_functions and not self.spec_mode:
+                # a call the caller's contract talks about: fcalls("f"), fcall_pos("f", k, i), fcall_ret("f", k)
+                if self.frames and self.frames[0].loop_ctx:
+                    raise Unsupported(f"logged call {fq} inside a loop (line {line})")
+                rec = {"recv": None, "ty": "fn", "method": fq.split(".")[-1],
+                       "args": [a if isinstance(a, SV) else None for a in args],
+                       "kwargs": {k_: (v_ if isinstance(v_, SV) else None) for k_, v_ in kwargs.items()},
+                       "line": line}
+                self.st.__dict__.setdefault("call_log", []).append(rec)
+                rec["ret"] = self.apply_contract(c, fi, bound, line)
+                return rec["ret"]
             return self.apply_contract(c, fi, bound, line)
         if (c is not None and c.inline) or self.specs.may_inline(fq):
             return self.inline_call(fi, args, kwargs, line, self_val)
